@@ -7,7 +7,10 @@
 //! starting with '/') of the list the handler's `listen_protocol` currently returns; the fold of
 //! the `RemoteProtocolsChange` events equals (reported added) minus (reported removed). Redundant
 //! notifications (Added for a name already present, Removed for an absent one) do not change a
-//! set fold; they are counted, not judged.
+//! set fold; they are counted, not judged. Equal names are reported in both representations
+//! (`StreamProtocol::new` / `try_from_owned`); a direct sub-check demands Eq/Hash consistency of
+//! `StreamProtocol` over all pairs of representations. (Local names always reach the connection as
+//! strings and are converted with `try_from_owned`, so there is one representation on that side.)
 
 use crate::probe::{Driver, FOREVER};
 use libp2p_swarm::handler::ProtocolSupport;
@@ -17,7 +20,7 @@ use std::collections::{BTreeSet, HashSet};
 
 pub const META: Meta = Meta {
     level: "exploration",
-    rule: "local: every sequence of 3 (quick) / 4 (thorough) advertised lists, each list any of the 85 lists of length <=3 over {/a,/b,/c,x(invalid)} with duplicates (first = initial list at connection creation); remote: every sequence of <=4 (quick) / <=6 (thorough) reports Added(S)/Removed(S), S any subset of {/a,/b}, interleaved with local list changes; batches: every sequence of <=2 batches of <=3 reports (thorough also <=3 batches of <=2 reports) where all reports of a batch are emitted back-to-back inside ONE Connection::poll, either straight away or triggered by the LocalProtocolsChange event of the same step (local change directly followed by remote reports in the same poll). Non-trivial = distinct sequences in which at least one step changes the expected set.",
+    rule: "local: every sequence of 3 (quick) / 4 (thorough) advertised lists, each list any of the 85 lists of length <=3 over {/a,/b,/c,x(invalid)} with duplicates (first = initial list at connection creation); remote: every sequence of <=3 (quick) / <=4 (thorough) reports Added(S)/Removed(S), S any subset of {/a/1,/b/2,/c/3}, the names of a report either all StreamProtocol::new(static) or all try_from_owned (32 report kinds), interleaved with local list changes; batches: every sequence of <=2 batches of <=3 static-name reports and of <=2 batches of <=2 reports in both representations (thorough also <=3 batches of <=2 reports and 3 names) where all reports of a batch are emitted back-to-back inside ONE Connection::poll, either straight away or triggered by the LocalProtocolsChange event of the same step (local change directly followed by remote reports in the same poll). Non-trivial = distinct sequences in which at least one step changes the expected set.",
     explanation: "Each sequence is executed on a fresh production Connection over an idle scripted muxer; after every step the connection is polled to quiescence and the probe handler's folds are compared with the expected sets.",
     assumptions: &["names over a 4-letter alphabet, lists of length <=3", "each list change is followed by a poll of the connection (as the connection task would be woken)"],
 };
@@ -81,33 +84,23 @@ fn local_case(seq: &[Vec<usize>]) -> Result<u64, String> {
     Ok(events)
 }
 
-/// remote reports: action a in 0..8: bit2 = removed?, bits 0..1 = subset of {/a,/b}
+/// remote reports: one report code (see `report_of`) per step
 fn remote_case(seq: &[usize]) -> Result<u64, String> {
     let locals: [Vec<usize>; 3] = [vec![0], vec![0, 1], vec![2]];
     let mut d = Driver::new(names(&locals[0]), true, FOREVER, FOREVER, 4);
     d.run().map_err(|e| format!("connection-error :: {e}"))?;
     let mut model: BTreeSet<String> = BTreeSet::new();
     for (k, &a) in seq.iter().enumerate() {
-        let set: HashSet<StreamProtocol> = (0..2).filter(|b| a & (1 << b) != 0).map(|b| StreamProtocol::new(["/a", "/b"][b])).collect();
         let local = &locals[(k + 1) % 3];
         {
+            let r = report_of(a, &mut model);
             let mut h = d.h.lock().unwrap();
             h.protocols = names(local);
-            if a & 4 == 0 {
-                for p in &set {
-                    model.insert(p.to_string());
-                }
-                h.report.push_back(ProtocolSupport::Added(set));
-            } else {
-                for p in &set {
-                    model.remove(p.as_ref());
-                }
-                h.report.push_back(ProtocolSupport::Removed(set));
-            }
+            h.report.push_back(r);
         }
         d.run().map_err(|e| format!("connection-error :: {e}"))?;
         let h = d.h.lock().unwrap();
-        let kind = if a & 4 == 0 { "after Added report" } else { "after Removed report" };
+        let kind = if a & 8 == 0 { "after Added report" } else { "after Removed report" };
         if let Some(m) = mismatch("remote", &h.remote_fold, &model, kind, format!("reports {seq:?}, step {k}")) {
             return Err(m);
         }
@@ -119,9 +112,26 @@ fn remote_case(seq: &[usize]) -> Result<u64, String> {
     Ok(n)
 }
 
+/// remote protocol names; several, so that a chance hash-bucket match cannot mask a lookup that
+/// uses the wrong hash
+const RNAMES: [&str; 3] = ["/a/1", "/b/2", "/c/3"];
+
+/// a protocol name in one of its two representations: `StreamProtocol::new(&'static str)` or
+/// `StreamProtocol::try_from_owned(String)` (equal by `==`, must behave identically)
+fn rname(i: usize, owned: bool) -> StreamProtocol {
+    if owned {
+        StreamProtocol::try_from_owned(RNAMES[i].to_string()).expect("valid")
+    } else {
+        StreamProtocol::new(RNAMES[i])
+    }
+}
+
+/// report code: bits 0..=2 subset of RNAMES, bit 3 = Removed (else Added), bit 4 = names in their
+/// owned representation (else static)
 fn report_of(a: usize, model: &mut BTreeSet<String>) -> ProtocolSupport {
-    let set: HashSet<StreamProtocol> = (0..2).filter(|b| a & (1 << b) != 0).map(|b| StreamProtocol::new(["/a", "/b"][b])).collect();
-    if a & 4 == 0 {
+    let owned = a & 16 != 0;
+    let set: HashSet<StreamProtocol> = (0..3).filter(|b| a & (1 << b) != 0).map(|b| rname(b, owned)).collect();
+    if a & 8 == 0 {
         for p in &set {
             model.insert(p.to_string());
         }
@@ -132,6 +142,52 @@ fn report_of(a: usize, model: &mut BTreeSet<String>) -> ProtocolSupport {
         }
         ProtocolSupport::Removed(set)
     }
+}
+
+/// report codes over the first `names` names, with (`reprs` = 2) or without the owned representation
+fn codes(names: usize, reprs: usize) -> Vec<usize> {
+    let mut v = Vec::new();
+    for owned in 0..reprs {
+        for kind in 0..2 {
+            for sub in 0..(1usize << names) {
+                v.push(sub | (kind << 3) | (owned << 4));
+            }
+        }
+    }
+    v
+}
+
+/// direct sub-check: `a == b` implies `hash(a) == hash(b)` and set membership, over all pairs of
+/// representations of all names
+fn hash_eq_consistency() -> Result<u64, String> {
+    use std::hash::{Hash, Hasher};
+    let mut all: Vec<(String, StreamProtocol)> = Vec::new();
+    for n in RNAMES.iter().chain(NAMES.iter().filter(|n| n.starts_with('/'))) {
+        all.push((format!("new({n})"), StreamProtocol::new(n)));
+        all.push((format!("try_from_owned({n})"), StreamProtocol::try_from_owned(n.to_string()).map_err(|e| format!("harness-desync :: {e}"))?));
+    }
+    let h = |p: &StreamProtocol| {
+        let mut s = std::collections::hash_map::DefaultHasher::new();
+        p.hash(&mut s);
+        s.finish()
+    };
+    let mut pairs = 0;
+    for (na, a) in &all {
+        for (nb, b) in &all {
+            pairs += 1;
+            if (a == b) != (a.as_ref() == b.as_ref()) {
+                return Err(format!("stream-protocol-eq-inconsistent :: {na} == {nb} is {}", a == b));
+            }
+            if a == b && h(a) != h(b) {
+                return Err(format!("stream-protocol-hash-eq-inconsistent :: {na} == {nb} but their hashes differ"));
+            }
+            let set: HashSet<StreamProtocol> = [a.clone()].into_iter().collect();
+            if set.contains(b) != (a == b) {
+                return Err(format!("stream-protocol-set-lookup-inconsistent :: HashSet{{{na}}}.contains({nb}) = {} although == is {}", set.contains(b), a == b));
+            }
+        }
+    }
+    Ok(pairs)
 }
 
 /// batches of remote reports emitted back-to-back inside ONE `Connection::poll` (the handler
@@ -178,10 +234,10 @@ fn batch_case(seq: &[Vec<usize>], on_local: bool) -> Result<u64, String> {
     Ok(n)
 }
 
-fn batches(max_reports: usize) -> Vec<Vec<usize>> {
+fn batches(max_reports: usize, alphabet: &[usize]) -> Vec<Vec<usize>> {
     let mut v = Vec::new();
     for l in 1..=max_reports {
-        mc::enumerate::sequences(8, l, |s| v.push(s.to_vec()));
+        mc::enumerate::sequences(alphabet.len(), l, |s| v.push(s.iter().map(|&i| alphabet[i]).collect()));
     }
     v
 }
@@ -195,7 +251,9 @@ pub fn run(ctx: &Ctx) -> Outcome {
     if let Some(c) = &ctx.replay {
         let mut out = Outcome::default();
         out.evaluations = 1;
-        let r = if c["kind"] == "batch" {
+        let r = if c["kind"] == "hash-eq" {
+            guarded(hash_eq_consistency).map(|_| ())
+        } else if c["kind"] == "batch" {
             let seq: Vec<Vec<usize>> = serde_json::from_value(c["seq"].clone()).unwrap_or_default();
             let on_local = c["on_local"].as_bool().unwrap_or(false);
             guarded(|| batch_case(&seq, on_local)).map(|_| ())
@@ -212,12 +270,16 @@ pub fn run(ctx: &Ctx) -> Outcome {
         return out;
     }
     let len = ctx.tier.pick(3, 4);
-    let rlen = ctx.tier.pick(4, 6);
-    // (max reports per batch, max batches per sequence)
-    let blens: Vec<(usize, usize)> = ctx.tier.pick(vec![(3, 2)], vec![(3, 2), (2, 3)]);
+    let rlen = ctx.tier.pick(3, 4);
+    // (max reports per batch, max batches per sequence, names, representations)
+    let blens: Vec<(usize, usize, usize, usize)> = ctx.tier.pick(vec![(3, 2, 2, 1), (2, 2, 2, 2)], vec![(3, 2, 2, 1), (2, 2, 2, 2), (2, 3, 2, 1), (2, 2, 3, 2)]);
     // pre-pass in the parent: all sequences of 2 lists, so that the reported counterexample per
     // signature is a shortest one (its violations are merged first)
     let mut pre = Outcome::default();
+    match guarded(hash_eq_consistency) {
+        Ok(n) => pre.count("stream_protocol_representation_pairs", n),
+        Err(m) => pre.violation(mc::bfs::signature_of(&m), m, json!({"kind": "hash-eq"})),
+    }
     for i0 in 0..all.len() {
         for i1 in 0..all.len() {
             let seq = vec![all[i0].clone(), all[i1].clone()];
@@ -268,11 +330,14 @@ pub fn run(ctx: &Ctx) -> Outcome {
         // remote reports
         let mut remote_ev = 0u64;
         let mut idx = 0u64;
-        mc::enumerate::sequences_upto(8, rlen, |seq| {
+        let rcodes = codes(3, 2);
+        mc::enumerate::sequences_upto(rcodes.len(), rlen, |idx_seq| {
             idx += 1;
-            if seq.is_empty() || !ctx.mine(idx) {
+            if idx_seq.is_empty() || !ctx.mine(idx) {
                 return;
             }
+            let seq_v: Vec<usize> = idx_seq.iter().map(|&i| rcodes[i]).collect();
+            let seq = &seq_v[..];
             out.evaluations += 1;
             out.nontrivial_h((1 << 63) | seq.iter().fold(11u64, |h, &i| h.wrapping_mul(17).wrapping_add(i as u64 + 1)));
             match guarded(|| remote_case(seq)) {
@@ -306,8 +371,8 @@ pub fn run(ctx: &Ctx) -> Outcome {
                 }
             }
         };
-        for (max_reports, max_len) in blens.iter().copied() {
-            let bs = batches(max_reports);
+        for (max_reports, max_len, names_n, reprs) in blens.iter().copied() {
+            let bs = batches(max_reports, &codes(names_n, reprs));
             for l in 1..=max_len {
                 mc::enumerate::sequences(bs.len(), l, |idx| {
                     let seq: Vec<Vec<usize>> = idx.iter().map(|&i| bs[i].clone()).collect();
